@@ -13,7 +13,8 @@ CONSTANTS
   Batches,     \* sequence of batches; a batch is a sequence of rows of integers
   Momentum,    \* rational <<n, d>>
   MaxUpdates,  \* bound on training-mode forward passes (denominators grow)
-  Unbiased     \* variance kind the implementation uses (torch.var default: unbiased)
+  Unbiased,    \* variance kind the implementation uses (torch.var default: unbiased)
+  WithLoad     \* include LoadDonor (multiplies the reachable statistics: used with a small MaxUpdates)
 
 VARIABLES training, rm, rv, updates, res
 vars == <<training, rm, rv, updates, res>>
@@ -68,9 +69,19 @@ SaveLoadFresh ==
   /\ res' = [k |-> "saveload"]
   /\ UNCHANGED <<rm, rv, updates>>
 
+\* load_state_dict INTO THIS layer, in whatever mode it is: the checkpoint of a donor layer that saw
+\* batch b once in training mode.  Everything computed afterwards uses the loaded statistics (a layer
+\* that memoised something derived from the old ones would not).
+LoadDonor(b) ==
+  /\ WithLoad
+  /\ rm' = [f \in 1..F |-> Blend(Zero, Mean(b, f))]
+  /\ rv' = [f \in 1..F |-> Blend(Zero, Var(b, f))]
+  /\ res' = [k |-> "load", b |-> b]
+  /\ UNCHANGED <<training, updates>>
+
 Next ==
   \/ Train \/ Eval \/ SaveLoadFresh
-  \/ \E b \in 1..NB : Forward(b) \/ Inverse(b)
+  \/ \E b \in 1..NB : Forward(b) \/ Inverse(b) \/ LoadDonor(b)
 
 Spec == Init /\ [][Next]_vars
 
@@ -81,6 +92,7 @@ TypeOK == /\ training \in BOOLEAN /\ updates \in 0..MaxUpdates
 \* running statistics change only in training-mode forward passes, and then by the momentum rule
 MomentumRule ==
   [][\/ (rm' = rm /\ rv' = rv)
+     \/ res'.k = "load"
      \/ (training /\ res'.k = "fwd" /\ res'.stats = "batch"
          /\ \A f \in 1..F : /\ rm'[f] = Blend(rm[f], res'.mean[f])
                             /\ rv'[f] = Blend(rv[f], res'.var[f]))]_vars
